@@ -92,56 +92,13 @@ def w_family(acc, name, n):
 
 
 def w_fuzz(acc, runs, seed):
-    """Coverage-guided engine (atheris/libFuzzer) on bytes -> utf-8 -> parse_string -> write_string.
-    Crashes are re-run through the plain oracle before they are recorded."""
-    import os
-    import subprocess
-    import sys
-    import tempfile
+    """Coverage-guided engine (atheris/libFuzzer) on bytes -> utf-8 -> parse_string -> tiling/line oracle -> write_string.
+    The corpus it builds and any crash are re-run through the plain oracle before anything is recorded."""
+    from .. import fuzzrun
 
-    try:
-        import atheris  # noqa: F401
-    except Exception:
-        acc.notes["fuzz-engine-unavailable"] += 1
-        return
-    work = tempfile.mkdtemp(prefix="c01fuzz_")
-    try:
-        corpus = os.path.join(work, "corpus")
-        os.makedirs(corpus)
-        seeds = ["@a{k, t = {v}}", "@string{s = \"x\"}\n@a{k, t = s # {y}}", "@comment{c}\n% x\n@preamble{p}", ""]
-        for i, s in enumerate(seeds):
-            with open(os.path.join(corpus, "s%d" % i), "w") as f:
-                f.write(s)
-        dic = os.path.join(work, "dict")
-        with open(dic, "w") as f:
-            for t in tokens.SIGMA_S + ["@string{", "@comment{", "@preamble{", "\\\n", "\r\n"]:
-                f.write('"' + "".join("\\x%02x" % b for b in t.encode()) + '"\n')
-        target = os.path.join(harness.VERIF, "pbt", "fuzz_c01.py")
-        env = dict(os.environ, VERIF_REPO=harness.REPO)
-        p = subprocess.run(
-            [sys.executable, "-B", target, corpus, f"-runs={runs}", f"-seed={seed % 2**31 or 1}", f"-dict={dic}", "-max_len=256", f"-artifact_prefix={work}/", "-timeout=60", "-print_final_stats=1"],
-            capture_output=True, text=True, env=env, timeout=3600,
-        )
-        m = re.search(r"stat::number_of_executed_units:\s*(\d+)", p.stderr)
-        execs = int(m.group(1)) if m else 0
-        acc.notes["fuzz-executions"] += execs
-        arts = [f for f in os.listdir(work) if f.startswith(("crash-", "timeout-", "oom-"))]
-        for a in arts:
-            data = open(os.path.join(work, a), "rb").read()
-            text = data.decode("utf-8", "replace")
-            acc.run("text", o_text, text)
-            acc.notes["fuzz-artifacts"] += 1
-        # a sample of what the fuzzer kept as interesting goes through the oracle as well
-        for fn in sorted(os.listdir(corpus))[:4000]:
-            data = open(os.path.join(corpus, fn), "rb").read()
-            acc.run("text", o_text, data.decode("utf-8", "replace"))
-        acc.classes["fuzz-corpus-size"] += len(os.listdir(corpus))
-        if p.returncode != 0 and not arts:
-            acc.notes["fuzz-engine-error"] += 1
-    finally:
-        import shutil
-
-        shutil.rmtree(work, ignore_errors=True)
+    seeds = ["@a{k, t = {v}}", "@string{s = \"x\"}\n@a{k, t = s # {y}}", "@comment{c}\n% x\n@preamble{p}", ""]
+    dictionary = tokens.SIGMA_S + ["@string{", "@comment{", "@preamble{", "\\\n", "\r\n"]
+    fuzzrun.run_atheris(acc, "C01", "text", o_text, runs, seed, dictionary, seeds)
 
 
 def run(chk):
